@@ -15,6 +15,8 @@ import (
 	_ "verifharness/engines/lookup"
 	_ "verifharness/engines/net"
 	_ "verifharness/engines/stateproof"
+	_ "verifharness/engines/framing"
+	_ "verifharness/engines/ssz"
 	_ "verifharness/engines/store"
 	_ "verifharness/engines/table"
 )
